@@ -1,0 +1,57 @@
+//go:build verif
+
+package vm
+
+import (
+	"unsafe"
+
+	"github.com/goghcrow/yae/compiler"
+	"github.com/goghcrow/yae/parser/ast"
+	"github.com/goghcrow/yae/val"
+)
+
+// VerifCode is a read-only view of a compiled bytecode program for the
+// verification harness (the bytecode types are unexported).
+type VerifCode struct{ b *bytecode }
+
+// VerifCompile compiles a checked AST exactly like Compile does.
+func VerifCompile(expr ast.Expr, env1 *val.Env) *VerifCode {
+	return &VerifCode{NewCompile().Compile(expr, env1)}
+}
+
+// Code returns a copy of the instruction bytes.
+func (c *VerifCode) Code() []byte { return append([]byte(nil), c.b.code...) }
+
+// Consts returns a copy of the constant pool (shared by a program and its thunks).
+func (c *VerifCode) Consts() []interface{} { return append([]interface{}(nil), c.b.data...) }
+
+// VerifThunkBody reinterprets a constant that the compiler emitted as a thunk
+// (a function-typed operand of OP_CONST) and returns its body.
+func VerifThunkBody(v *val.Val) *VerifCode {
+	return &VerifCode{(*thunkVal)(unsafe.Pointer(v)).bytecode}
+}
+
+// Run executes the program on a fresh VM with the chosen dispatch loop.
+func (c *VerifCode) Run(env *val.Env, callThreaded bool) *val.Val {
+	v := NewVM()
+	if callThreaded {
+		v.interp = callThreading
+	}
+	return v.Interp(c.b, env)
+}
+
+// CompileCallThreaded is Compile with the call-threaded dispatch loop.
+func CompileCallThreaded(expr ast.Expr, env1 *val.Env) compiler.Closure {
+	bytecode := NewCompile().Compile(expr, env1)
+	return func(env *val.Env) *val.Val {
+		v := NewVM()
+		v.interp = callThreading
+		return v.Interp(bytecode, env)
+	}
+}
+
+// VerifOpcodeCount is the number of defined opcodes (_END_).
+const VerifOpcodeCount = int(_END_)
+
+// VerifOpcodeName returns the mnemonic of an opcode.
+func VerifOpcodeName(op byte) string { return opcode(op).String() }
